@@ -135,6 +135,23 @@ func c06Exec(c c06Case, limit int64) (c06Obs, *Verdict) {
 		cv.cmd("MAIL FROM:<s@x>")
 		cv.cmd("RCPT TO:<r0@x>")
 		npre = 3
+	} else if c.Prior > 0 && (c.PriorEnds == "data" || c.PriorEnds == "data-over") {
+		// an earlier DATA transaction on the same connection: of Prior
+		// octets (<= N; accepted), or of N+3 octets (refused with 552 when
+		// the limit applies)
+		n := c.Prior - 2
+		if c.PriorEnds == "data-over" {
+			n = int(c.N) + 1
+		}
+		if n < 0 {
+			n = 0
+		}
+		cv.cmd("DATA")
+		cv.raw(bytes.Repeat([]byte("p"), n))
+		cv.raw([]byte("\r\n.\r\n"))
+		cv.cmd("MAIL FROM:<s@x>")
+		cv.cmd("RCPT TO:<r0@x>")
+		npre = 4
 	} else if c.Prior > 0 {
 		// an earlier chunked transaction on the same connection; the envelope
 		// of the judged transaction is sent again afterwards
@@ -193,7 +210,13 @@ func c06Exec(c c06Case, limit int64) (c06Obs, *Verdict) {
 			v := failf("replies", "earlier transaction not answered: %v", codes(rs))
 			return c06Obs{}, &v
 		}
-		for _, rp := range rs[:npre] {
+		for i, rp := range rs[:npre] {
+			if (c.PriorEnds == "data" || c.PriorEnds == "data-over") && i == 0 && rp.Code == 354 {
+				continue
+			}
+			if c.PriorEnds == "data-over" && i == 1 && rp.Code == 552 {
+				continue
+			}
 			if rp.Class() != 2 {
 				return c06Obs{}, &Verdict{Inconclusive: fmt.Sprintf("earlier transaction refused: %v", codes(rs))}
 			}
@@ -361,17 +384,49 @@ func c06Run(c c06Case) Verdict {
 type c06SizeCase struct {
 	N    int64  `json:"n"`
 	Size string `json:"size"` // decimal digits
+	// Greet: how the connection was greeted before the MAIL: "" EHLO;
+	// "helo" HELO only; "ehlo-helo" / "helo-ehlo" both, in that order; "lmtp"
+	// an LMTP server and LHLO. The limit holds for every MAIL command.
+	Greet string `json:"greet,omitempty"`
+	// SizeKey: spelling of the keyword
+	SizeKey string `json:"size_key,omitempty"`
 }
 
 func c06SizeRun(c c06SizeCase) Verdict {
-	cfg := harness.Config{MaxMessageBytes: c.N}
+	cfg := harness.Config{MaxMessageBytes: c.N, LMTP: c.Greet == "lmtp"}
 	r := harness.NewRig(cfg, harness.Script{})
 	w, _ := r.Dial()
-	if e := preamble(w, false, false, 0); e != "" {
+	if c.Greet == "" || c.Greet == "lmtp" || c.Greet == "ehlo-helo" {
+		if e := preamble(w, cfg.LMTP, false, 0); e != "" {
+			w.Finish()
+			return Verdict{Inconclusive: e}
+		}
+	} else if st := w.WaitQuiet(); st != harness.QIdle {
 		w.Finish()
-		return Verdict{Inconclusive: e}
+		return Verdict{Inconclusive: "server not idle after connect: " + st}
+	} else {
+		w.Recv()
 	}
-	w.Send([]byte("MAIL FROM:<s@x> SIZE=" + c.Size + "\r\nQUIT\r\n"))
+	var more []string
+	switch c.Greet {
+	case "helo", "ehlo-helo":
+		more = []string{"HELO cli"}
+	case "helo-ehlo":
+		more = []string{"HELO cli", "EHLO cli"}
+	}
+	for _, g := range more {
+		out, st := w.Exchange([]byte(g + "\r\n"))
+		grs, err := harness.ParseReplies(out)
+		if st != harness.QIdle || err != nil || len(grs) != 1 || grs[0].Code != 250 {
+			w.Finish()
+			return Verdict{Inconclusive: fmt.Sprintf("%s not accepted: %s %v %v", g, st, err, codes(grs))}
+		}
+	}
+	key := c.SizeKey
+	if key == "" {
+		key = "SIZE"
+	}
+	w.Send([]byte("MAIL FROM:<s@x> " + key + "=" + c.Size + "\r\nQUIT\r\n"))
 	rest, fin := w.Finish()
 	if !fin {
 		return finishFail(w)
@@ -625,7 +680,11 @@ func c06Gen(t *rapid.T) c06Case {
 	}
 	if rapid.IntRange(0, 3).Draw(t, "prior") == 0 {
 		c.Prior = rapid.IntRange(1, int(c.N)).Draw(t, "prior_n")
-		c.PriorEnds = rapid.SampledFrom([]string{"last", "rset", "starttls"}).Draw(t, "prior_ends")
+		ends := []string{"last", "rset", "starttls", "data-over"}
+		if c.Prior >= 2 {
+			ends = append(ends, "data", "data")
+		}
+		c.PriorEnds = rapid.SampledFrom(ends).Draw(t, "prior_ends")
 	}
 	c.Reads = rapid.SampledFrom([][]int{{1}, {3}, {int(c.N)}, {int(c.N) + 1}, {4096}}).Draw(t, "reads")
 	c.TLS = rapid.IntRange(0, 7).Draw(t, "tls") == 0
@@ -681,7 +740,7 @@ func TestC06(t *testing.T) {
 			if !mine(idx) {
 				continue
 			}
-			if !c06Size.one(t, c06SizeCase{N: n, Size: s}) {
+			if !c06Size.one(t, c06SizeCase{N: n, Size: s, Greet: []string{"", "helo", "ehlo-helo", "helo-ehlo", "lmtp"}[idx%5], SizeKey: []string{"SIZE", "size", "Size"}[idx%3]}) {
 				return
 			}
 		}
@@ -696,7 +755,7 @@ func TestC06(t *testing.T) {
 				digits = "0"
 			}
 		}
-		return c06SizeCase{N: n, Size: digits}
+		return c06SizeCase{N: n, Size: digits, Greet: rapid.SampledFrom([]string{"", "", "helo", "ehlo-helo", "helo-ehlo", "lmtp"}).Draw(rt, "greet"), SizeKey: rapid.SampledFrom([]string{"SIZE", "size", "sIzE"}).Draw(rt, "key")}
 	})
 	if t.Failed() {
 		return
